@@ -158,25 +158,44 @@ Print Assumptions C12_asfound_is_fixed_without_windows.
    the path changing.  Because the registered proxy is asked again for EVERY request, each request —
    through the proxy or straight through a toolchain's rustc — is resolved to the toolchain its path
    leads to now, keyed on that build's identity, and handed what that build made (premise: at one
-   toolchain's rustc the same mtime means the same build; ident and H collision-free). *)
+   toolchain's rustc the same mtime means the same build; ident and H collision-free).  Histories may
+   contain a LONG DETECTION (RHoldBegin .. RHoldEnd: the build in place names its sysroot, which fixes
+   the identity, long before the detection is over) with anything in between — installs, switches and
+   REQUESTS ARRIVING INSIDE THE WINDOW: those are covered (each does its own detection); the request
+   that overlapped its own detection (v_held) is not constrained, and its source is reserved. *)
 Theorem C12_proxy_follows_selection :
   forall (ident : N -> N) (H : N -> N -> N),
     (forall a b, ident a = ident b -> a = b) ->
     (forall i1 s1 i2 s2, H i1 s1 = H i2 s2 -> i1 = i2 /\ s1 = s2) ->
-    forall ops, rwf (rexec ident H false rstart ops) = true ->
-    forall e, In e (rexec ident H false rstart ops) -> rright ident e = true.
-Proof. intros ident H I1 I2 ops W e I. exact (proxy_follows_selection ident H I1 I2 ops W e I). Qed.
+    forall ops,
+    held_srcs_reserved ops = true ->
+    rwf (rexec ident H false false rstart ops) = true ->
+    forall e, In e (rexec ident H false false rstart ops) -> v_held e = false -> rright ident e = true.
+Proof. intros ident H I1 I2 ops R W e I Hd. exact (proxy_follows_selection ident H I1 I2 ops R W e I Hd). Qed.
 Print Assumptions C12_proxy_follows_selection.
 
 (* ... and it is refuted for a proxy that remembers rustup's first answer (memo = true): after
    `rustup default B` requests are still resolved to, keyed on and compiled by toolchain A. *)
 Theorem C12_proxy_memo_refuted :
-  rwf (rexec ident_w H_w2 true rstart ops_switch) = true /\
-  existsb (fun e => negb (rright ident_w e)) (rexec ident_w H_w2 true rstart ops_switch) = true /\
-  rwf (rexec ident_w H_w2 false rstart ops_switch) = true /\
-  map v_out (rexec ident_w H_w2 false rstart ops_switch) = [RMiss 1; RHit 1; RMiss 2; RMiss 2; RMiss 1].
+  rwf (rexec ident_w H_w2 true false rstart ops_switch) = true /\
+  existsb (fun e => negb (rright ident_w e)) (rexec ident_w H_w2 true false rstart ops_switch) = true /\
+  rwf (rexec ident_w H_w2 false false rstart ops_switch) = true /\
+  map v_out (rexec ident_w H_w2 false false rstart ops_switch) = [RMiss 1; RHit 1; RMiss 2; RMiss 2; RMiss 1].
 Proof. exact proxy_memo_refuted. Qed.
 Print Assumptions C12_proxy_memo_refuted.
+
+(* ... and for a server in which a request that misses the memo JOINS the detection in flight for its
+   key: issued after the swap, it is keyed on the old build while the new one compiles, and what it
+   stores is handed out when the old build is back.  The same history is served correctly when every
+   request does its own detection. *)
+Theorem C12_join_refuted :
+  held_srcs_reserved ops_join = true /\
+  rwf (rexec ident_w H_w2 false true rstart ops_join) = true /\
+  plain_right (rexec ident_w H_w2 false true rstart ops_join) = false /\
+  rwf (rexec ident_w H_w2 false false rstart ops_join) = true /\
+  plain_right (rexec ident_w H_w2 false false rstart ops_join) = true.
+Proof. exact join_refuted. Qed.
+Print Assumptions C12_join_refuted.
 
 (* The identity of a rustc is the digests of what <sysroot>/lib/*.so LOADS — regular files and links to
    regular files alike: two sysroots whose libraries differ in content have different identities, however
